@@ -60,6 +60,10 @@ CARRIERS = {
     "ct_add_test": lambda: [{"k": "ct_add_test", "doc": 1, "expectfail": 1}],
     "test+section": lambda: [{"k": "ct_add_test", "doc": 1}, {"k": "ct_add_section", "doc": 1},
                              {"k": "ct_add_section", "doc": 1}],
+    "test+section_macro": lambda: [{"k": "ct_add_test", "doc": 1, "impl": "macro"},
+                                   {"k": "ct_add_section", "doc": 1, "impl": "macro", "expectfail": 1}],
+    "long_list": lambda: [{"k": "set", "doc": 1, "values": [f"src/some_directory/file_name_{n}.cpp" for n in range(8)]},
+                          {"k": "option", "doc": 1, "help": '"' + "a very long help text " * 6 + '"'}],
     "class_full": lambda: [{"k": "cpp_class", "doc": 1, "bases": ["Base"]}, {"k": "cpp_attr", "doc": 1, "default": "dv"},
                            {"k": "cpp_member", "doc": 1, "types": ["int", "str"], "params": ["a", "b"]}, {"k": "close"},
                            {"k": "cpp_constructor", "doc": 1, "types": ["int"], "params": ["x"], "impl": "macro"},
